@@ -1628,6 +1628,8 @@ def gen_objloc(rng):
 def load_corpus():
     out = []
     for path in sorted(glob.glob(os.path.join(vlib.VERIF, 'corpus', 'c04_*.txt'))):
+        if os.path.basename(path) == 'c04_lazyfacts.txt':
+            continue      # laziness facts of the standard library: check_lazyfacts
         for ln, l in enumerate(open(path, encoding='utf-8')):
             l = l.rstrip('\n')
             if l and not l.startswith('#'):
@@ -1651,6 +1653,45 @@ def ui_pass_programs():
 
 # a tiny reader for corpus lines in LazyCore surface syntax is not needed: corpus lines are Jsonnet text
 # programs (used by the metamorphic search) or, prefixed with "K ", python literals of LazyCore tuples.
+
+def check_lazyfacts(run, impl_exe, only=None):
+    """corpus/c04_lazyfacts.txt (generated by hand from the unchanged tree by tools/gen_c04_lazyfacts.py): a call of a
+    standard-library function with ONE part replaced by `error "never"`, under a shallow observer, that succeeded.
+    It must still succeed with the same value: the part is not evaluated and the result does not depend on it."""
+    path = os.path.join(vlib.VERIF, 'corpus', 'c04_lazyfacts.txt')
+    facts = []
+    if os.path.exists(path):
+        for l in open(path, encoding='utf-8'):
+            l = l.rstrip('\n')
+            if l and not l.startswith('#'):
+                f = l.split('\t')
+                if len(f) == 3 and (only is None or f[1] == only):
+                    facts.append(f)
+    cases = [eval_case('f%d' % i, f[1], stack=0x190) for i, f in enumerate(facts)]
+    res = vlib.run_sharded(impl_exe, [vlib.impl_line(c) for c in cases], timeout=120)
+    for i, (fn, prog, val) in enumerate(facts):
+        run.evaluations += 1
+        c = canon_impl(res.get('f%d' % i, 'NOOUTPUT'))
+        why = None
+        if c[0] != 'ok':
+            why = 'now ends with %s %s' % (c[0], str(c[1])[:80])
+        else:
+            try:
+                same = freeze(json_pairs(c[1])) == freeze(json_pairs(val))
+            except ValueError:
+                same = c[1] == val
+            if not same:
+                why = 'value %s, was %s' % (c[1][:80], val[:80])
+        if why:
+            run.violation('unused-part-now-evaluated:' + fn,
+                          'std.%s: a part that the result did not depend on (and that was not evaluated) matters now: %s %s (fact from corpus/c04_lazyfacts.txt: %s)'
+                          % (fn, prog, why, val[:80]), {'kind': 'lazyfact', 'function': fn, 'program': prog, 'value': val})
+        else:
+            run.count('F:lazyfact-holds')
+            run.nontrivial.add(('lazyfact', prog))
+    run.count('F:lazyfact-functions', len(set(f[0] for f in facts)))
+    return len(facts)
+
 
 def run_k(run, progs, impl_exe, model_exe, label):
     """progs: list of (key, ast, text, sites_outside)"""
@@ -1745,6 +1786,9 @@ def check(run):
             kcorp.append((key, e, show(e), set()))
     run_k(run, kcorp + progs, impl_exe, model_exe, 'K')
 
+    # ---- laziness facts of the standard library
+    check_lazyfacts(run, impl_exe)
+
     # ---- Search (implementation only)
     bases = []
     for key, l in corpus:
@@ -1801,6 +1845,19 @@ def replay(run, path):
             why = 'implementation crash'
         if why:
             run.violation(j.get('key', 'lazycore-correspondence'), why, r)
+    elif isinstance(r, dict) and r.get('kind') == 'lazyfact':
+        impl_exe = vlib.build_harness()
+        res = vlib.run_lines(impl_exe, [vlib.impl_line(eval_case('f', r['program'], stack=0x190))])
+        c = canon_impl(res.get('f', 'NOOUTPUT'))
+        print('program:', r['program']); print('  ->', c); print('fact   :', r['value'])
+        same = False
+        if c[0] == 'ok':
+            try:
+                same = freeze(json_pairs(c[1])) == freeze(json_pairs(r['value']))
+            except ValueError:
+                same = c[1] == r['value']
+        if not same:
+            run.violation(j.get('key', 'unused-part-now-evaluated'), 'std.%s: %s no longer gives %s' % (r['function'], r['program'], r['value']), r)
     elif isinstance(r, dict) and r.get('kind') == 'expect':
         impl_exe = vlib.build_harness()
         base = bytes(int(x, 16) for x in r['base_hex'].split(','))
